@@ -27,6 +27,7 @@ THEOREMS = [
     "HedVerif.C18.restore_identity",
     "HedVerif.C18.backup_history_restore",
     "HedVerif.C18.restore_tasks_only",
+    "HedVerif.C18.restore_tasks_complete",
     "HedVerif.C18.remodel_idempotent",
     "HedVerif.C18.remodelCore_idempotent",
     "HedVerif.C18.no_overwrite",
@@ -489,7 +490,53 @@ def task_hit(tasks, rel):
     return (not tasks) or any(("task_" + t) in rel[-1] for t in tasks)
 
 
-def gen_history(rng):
+TASK_FILES = {"go": ["task_go_run-1_events.tsv", "sub-01_task_go_events.tsv"],
+              "stop": ["task_stop_events.tsv", "sub-02_task_stop_run-2_events.tsv"],
+              "rest": ["task_rest_events.tsv", "sub-03_task_rest_events.tsv"]}
+TASK_ORDERS = [list(p) for n in (2, 3) for p in __import__("itertools").permutations(["go", "stop", "rest", "nosuch"], n)]
+
+
+def gen_task_history(rng, idx):
+    """directed: files of three tasks, all backed up; files of EVERY listed task (and of unlisted ones) are
+    modified or deleted before a restore restricted to a 2-3 element task list; the lists run through
+    every order of 2 or 3 names out of go/stop/rest/nosuch (nosuch matches no file)"""
+    dirs = [[], ["sub-01"], ["sub-02", "ses-1"], ["eeg"]]
+    files = {}
+    for t, names in TASK_FILES.items():
+        for nm in names[:rng.randint(1, 2)]:
+            files[tuple(rng.choice(dirs) + [nm])] = gen_tsv(rng, False, floats=False)
+    for nm in ["x_task_go_task_stop_events.tsv", "sub-01_task-go_events.tsv", "participants.tsv"]:
+        if rng.random() < 0.6:
+            files[tuple(rng.choice(dirs) + [nm])] = gen_tsv(rng, False, floats=False)
+    tree = [[list(k), v.decode("latin-1")] for k, v in sorted(files.items())]
+    rels = [t[0] for t in tree]
+    mode = rng.choice(["main", "direct"])
+    flist = list(rels)
+    rng.shuffle(flist)
+    ops = []
+    for rnd in range(2):
+        tasks = TASK_ORDERS[(idx + 17 * rnd) % len(TASK_ORDERS)]
+        damaged = set()
+        for t in tasks[::-1] + [x for x in TASK_FILES if x not in tasks]:      # later-listed tasks first
+            cand = [r for r in rels if ("task_" + t) in r[-1] and tuple(r) not in damaged]
+            if not cand or (t not in tasks and rng.random() < 0.5):
+                continue
+            r = rng.choice(cand)
+            damaged.add(tuple(r))
+            if rng.random() < 0.6:
+                ops.append({"op": "modify", "path": r, "bytes": gen_tsv(rng, True).decode("latin-1")})
+            else:
+                ops.append({"op": "delete", "path": r if len(r) == 1 or rng.random() < 0.7 else r[:1]})
+        ops.append({"op": "restore", "tasks": tasks, "via": rng.choice(["manager", "main"])})
+        if len(ops) >= 4:
+            break
+    return {"kind": "history", "tree": tree, "files": None if mode == "main" else flist, "mode": mode,
+            "name": rng.choice(["default_back", "b1"]), "ops": ops[:8]}
+
+
+def gen_history(rng, idx=1):
+    if idx % 3 == 0:
+        return gen_task_history(rng, idx // 3)
     tree = gen_tree(rng, allow_odd=False, in_derivatives=False)
     rels = [t[0] for t in tree]
     selected = [r for r in rels if sel_name(r)]
@@ -522,7 +569,8 @@ def gen_history(rng):
             p = list(rng.choice(dirs)) if dirs and rng.random() < 0.3 else rng.choice(rels)
             ops.append({"op": "delete", "path": p})
         elif r < 0.8:
-            tasks = rng.choice([[], [], ["go"], ["stop"], ["go", "stop"], ["nosuch"], ["go_run-1"]])
+            tasks = rng.choice([[], [], ["go"], ["stop"], ["go", "stop"], ["stop", "go"], ["nosuch", "stop"], ["nosuch"],
+                                ["go_run-1"]])
             ops.append({"op": "restore", "tasks": tasks, "via": rng.choice(["manager", "main"])})
         else:
             ops.append({"op": "remodel", "ns": rng.random() < 0.5})
@@ -669,8 +717,13 @@ def history_execute(ctx, env, st, ans):
         if o["op"] == "restore":
             for f in set(before) | set(after):
                 hit = f in rec and task_hit(o["tasks"], f)
-                if hit and after.get(f) != orig[f]:
-                    ctx.violation("restore-not-byte-identical", {**case, "at": i}, {"file": "/".join(f)})
+                if hit:
+                    ctx.count("restore-picked-file" + ("-was-damaged" if before.get(f) != orig[f] else ""))
+                if hit and after.get(f) != bsnap0.get((name, "backup_root") + f):
+                    # every backed-up file whose name selects ANY task of the list is back to its backup copy
+                    which = [t for t in o["tasks"] if ("task_" + t) in f[-1]]
+                    ctx.violation("restore-tasks-restores-every-requested-task" if o["tasks"] else "restore-not-byte-identical",
+                                  {**case, "at": i}, {"file": "/".join(f), "tasks": o["tasks"], "selected_by": which})
                 if not hit and after.get(f) != before.get(f):
                     ctx.violation("task-restore-touched-unselected-file", {**case, "at": i}, {"file": "/".join(f)})
         if o["op"] == "remodel":
@@ -769,7 +822,7 @@ def run(ctx):
         specs = CORPUS + [gen_crash(ctx.rng, i) for i in range(n_crash)]
         ctx.samples.extend({"crash": sp["files"], "name": sp["name"]} for sp in specs[4:7])
         crash_cases(ctx, env, specs)
-        specs = [gen_history(ctx.rng) for _ in range(n_hist)]
+        specs = [gen_history(ctx.rng, i) for i in range(n_hist)]
         ctx.samples.extend({"history": [o["op"] for o in sp["ops"]]} for sp in specs[:3])
         history_cases(ctx, env, specs)
     ctx.notes.append("observation: a crash before the record is complete leaves a directory that makes every later "
